@@ -292,7 +292,7 @@ BDTS_RULES = [
     X.Rule('x = ~x', r'\b(\w+)\s*=\s*~\1;', r'\1 = bv_not(\1);', 1, 1),
     X.Rule('mask[i] = 1', r'\bmask\[(\w+)\]\s*=\s*1;', r'bv_set(&mask, \1);', 1, 1),
     X.Rule('dim_group[mask]', r'\bdim_group\[mask\]', '(*gm_at(&dim_group, mask))', 1, 1),
-    X.Rule('group.classes.push_back', r'\bgroup\.classes\.push_back\(', 'cp_push(&group.classes, ', 1, 1),
+    X.Rule('group.classes.push_back', r'((?:\(\*gm_at\(&dim_group, mask\)\)|\bgroup))\.classes\.push_back\(', r'cp_push(&\1.classes, ', 1, 1),
     X.Rule('reserve()', r'\b[\w.]+\.reserve\([^;]*\);', ''),
     X.Rule('m.strides.push_back', r'\bm\.strides\.push_back\(', 'sz_push(&m.strides, ', 1, 1),
     X.Rule('std::count_if(has_concrete_classes)',
@@ -497,41 +497,48 @@ def cfg_table(cfgs, n=None, anc=None):
 
 
 def dispatch_program(n, direct, cfg, abstract):
-    """Real registry for one configuration: classes (virtual inheritance), one method, its definitions in order;
-    every acceptable tuple is called and compared with the oracle computed here."""
-    arity, vp, specs = cfg[0], cfg[1], cfg[2]
+    """Real registry for one configuration: classes (virtual inheritance; abstract ones have a pure virtual function), one
+    method, its definitions in order; every acceptable tuple of concrete classes is called and compared with the oracle,
+    and the report of update() is compared with the oracle's flags."""
+    arity, vp, specs = cfg[0], cfg[1], [tuple(t) for t in cfg[2]]
+    absmask = cfg[4] if len(cfg) > 4 else 0
     anc = closure(n, direct)
-
-    def cov_ix(b, d):
-        return b == d or anc[d][b]
-
-    def more_specific(x, y):
-        if any(x[k] != y[k] and cov_ix(x[k], y[k]) for k in range(arity)):
-            return False
-        return any(x[k] != y[k] and cov_ix(y[k], x[k]) for k in range(arity))
+    want, _, flags = oracle(n, anc, (arity, vp, specs, 0, absmask))
     L = ['#include <yorel/yomm2/keywords.hpp>', '#include <iostream>', '#include <stdexcept>', 'using namespace yorel::yomm2;']
     for c in range(n):
         bs = [b for b in range(n) if direct[c][b]]
-        L.append('struct C%d%s { virtual ~C%d() {} };' % (c, (' : ' + ', '.join('virtual C%d' % b for b in bs)) if bs else '', c))
+        body = 'virtual ~C%d() {}' % c
+        if (absmask >> c) & 1:
+            body += ' virtual void pure%d() = 0;' % c
+        else:
+            body += ''.join(' void pure%d() override {}' % a for a in range(n) if anc[c][a] and (absmask >> a) & 1)
+        L.append('struct C%d%s { %s };' % (c, (' : ' + ', '.join('virtual C%d' % b for b in bs)) if bs else '', body))
     L.append('register_classes(%s);' % ', '.join('C%d' % c for c in range(n)))
     L.append('declare_method(int, m, (%s));' % ', '.join('virtual_<C%d&>' % b for b in vp))
     for i, t in enumerate(specs):
         L.append('define_method(int, m, (%s)) { return %d; }' % (', '.join('C%d&' % c for c in t), i))
     L.append('struct yv_resolution { int status; };')
-    L.append('int main() { update(); int bad = 0;')
+    L.append('int main() { auto compiler = update(); auto& rep = compiler.report; int bad = 0;')
     L.append('  default_policy::error = [](const error_type& ev) { if (auto e = std::get_if<resolution_error>(&ev)) { yv_resolution r; r.status = e->status == resolution_error::ambiguous ? -1 : -2; throw r; } };')
+    for nm, bit in (('not_implemented', 1), ('ambiguous', 2), ('concrete_not_implemented', 4), ('concrete_ambiguous', 8)):
+        L.append('  if ((rep.%s != 0) != %s) { std::cout << "report.%s = " << rep.%s << ", the property asks for %s\\n"; ++bad; }'
+                 % (nm, 'true' if flags & bit else 'false', nm, nm, 'non-zero' if flags & bit else 'zero'))
     for c in range(n):
-        L.append('  C%d o%d;' % (c, c))
-    for tup in itertools.product(range(n), repeat=arity):
-        if not all(cov_ix(vp[k], tup[k]) for k in range(arity)):
+        if not (absmask >> c) & 1:
+            L.append('  C%d o%d;' % (c, c))
+    ns = len(specs)
+    for t in range(n ** arity):
+        tup, r = [], t
+        for k in range(arity):
+            tup.append(r % n)
+            r //= n
+        if want[t] == 255 or any((absmask >> c) & 1 for c in tup):
             continue
-        app = [i for i, t in enumerate(specs) if all(cov_ix(t[k], tup[k]) for k in range(arity))]
-        win = [d for d in app if all(e == d or more_specific(specs[d], specs[e]) for e in app)]
-        want = win[0] if win else (-1 if app else -2)
+        w = want[t] if want[t] < ns else (-1 if want[t] == ns else -2)
         args = ', '.join('static_cast<C%d&>(o%d)' % (vp[k], tup[k]) for k in range(arity))
         L.append('  { int r; try { r = m(%s); } catch (const yv_resolution& e) { r = e.status; } if (r != %d) { std::cout << "m(%s): got " << r << ", the property asks for %d (-1 ambiguous, -2 not implemented)\\n"; ++bad; } }'
-                 % (args, want, ','.join('C%d' % c for c in tup), want))
-    L.append('  if (bad) std::cout << "REPRODUCED on real code\\n"; else std::cout << "real library dispatches this registry as the property asks\\n"; return 0; }')
+                 % (args, w, ','.join('C%d' % c for c in tup), w))
+    L.append('  if (bad) std::cout << "REPRODUCED on real code\\n"; else std::cout << "real library dispatches and reports this registry as the properties ask\\n"; return 0; }')
     return '\n'.join(L) + '\n'
 
 
@@ -547,7 +554,7 @@ def replay(job, res, ob):
     cfg = job.cfgs[ci]
     return R.run_generated_program('tables_replay', dispatch_program(n, direct, cfg, None),
                                    {'classes': n, 'direct_bases': [(d, b) for d in range(n) for b in range(n) if direct[d][b]],
-                                    'method virtual parameters': list(cfg[1]), 'definitions in registration order': [list(t) for t in cfg[2]]})
+                                    'method virtual parameters': list(cfg[1]), 'definitions in registration order': [list(t) for t in cfg[2]], 'abstract classes (bit mask)': cfg[4]})
 
 
 def jobs(tier):
